@@ -20,7 +20,7 @@ RULE = ("union of C13 trees and C15 pattern sets: directory trees x recursive on
         "model is unambiguous the indexed directories also equal the model's processed directories. Non-trivial: >=1 "
         "subdirectory that is excluded / auto-excluded / empty after exclusion and >=1 that is kept; distinct by SHA-1 "
         "of the case")
-RULE_MORE = 'output locations of C13; an earlier run of the same command line without -r or with another prefix into the same output; symlinked subdirectory as in C13; at least two subdirectories at the top. Later: input given through a differently named symlink; file links.'
+RULE_MORE = 'output locations of C13; an earlier run of the same command line without -r or with another prefix into the same output; symlinked subdirectory as in C13; at least two subdirectories at the top. Later: input given through a differently named symlink; file links. (round 10) or of the same tree without any exclusion pattern, into another output directory.'
 ASSUMPTIONS = ["default module_path_separator", "the input directory itself is not excluded and holds a .cmake file when "
                "auto-exclusion is on"]
 BUDGET = {"quick": {"shards": 8, "examples": 200}, "thorough": {"shards": 16, "examples": 2500}}
@@ -44,7 +44,7 @@ def strategy(tier):
         # output locations of C13: absolute, relative to the cwd, nested directly below the input root (not pre-existing)
         "outloc": st.sampled_from(["abs", "nested", "abs", "rel"]),
         # an earlier run of the same command line, minus -r or with another prefix, already filled the output directory
-        "prior": st.sampled_from([None, None, "non-recursive", "other-prefix"]),
+        "prior": st.sampled_from([None, None, "no-filters", "non-recursive", "other-prefix"]),
         # a symbolic link 'zz_alias' to the first subdirectory, with input.follow_symlinks off (default) or on
         "alias": st.sampled_from([None, None, "nofollow", "follow"]),
         # a symbolic link in the tree to a CMake file stored outside it (a processed file like any other)
@@ -144,6 +144,14 @@ def evaluate(case):
         if case.get("prior") and case.get("outloc") != "nested":
             res.labels.append("prior-run:" + case["prior"])
             prior_argv = [a for a in argv if a != "-r"] if case["prior"] == "non-recursive" else argv + ["-p", "EarlierPrefix"]
+            if case["prior"] == "no-filters":
+                # the same tree was documented before in this process without any exclusion pattern, into another output
+                cfg0 = sb.path("settings0.yaml")
+                with open(cfg0, "w") as f:
+                    f.write("input:\n  auto_exclude_directories_without_cmake: %s\n" % ("true" if case["auto"] else "false"))
+                    if alias:
+                        f.write("  follow_symlinks: %s\n" % ("true" if alias == "follow" else "false"))
+                prior_argv = [inp, "-o", sb.path("out_earlier"), "-s", cfg0] + (["-r"] if case["recursive"] else [])
             S.run_main(prior_argv, cwd=cwd)
         run = S.run_main(argv, cwd=cwd, order=case["order"])
         if run.exc is not None or run.code != 0:
